@@ -41,6 +41,7 @@ func init() {
 	register("C09", true, checkC09)
 	register("C04", true, checkC04)
 	register("C02", true, checkC02)
+	register("C15", true, checkC15)
 	register("ES", false, checkES)
 	register("IX", true, checkIXdebug)
 }
